@@ -94,12 +94,20 @@ def _random_obj(rng):
     c = rng.random()
     S = rng.choice(["a", "ab", "ab", "abc", "01"])
     if c < 0.25:
-        return U.random_dfa(rng, rng.randint(1, 6), S, prefix=rng.choice(["s", "q", ""]))
+        D = U.random_dfa(rng, rng.randint(1, 6), S, prefix=rng.choice(["s", "q", ""]))
+        if rng.random() < 0.3:
+            old = rng.choice(sorted(D.Q))           # the empty string is a legal state name
+            D = U.rename_fa(D, {q: ("" if q == old else q) for q in D.Q})
+        return D
     k = rng.randint(1, 6)
     eps = rng.choice(EPSS)
     if eps in S:
         eps = ""
-    return U.random_nfa(rng, k, S, eps=eps, prefix=rng.choice(["s", "q", "x"]), total=rng.random() < 0.3)
+    N = U.random_nfa(rng, k, S, eps=eps, prefix=rng.choice(["s", "q", "x"]), total=rng.random() < 0.3)
+    if rng.random() < 0.15:
+        old = rng.choice(sorted(N.Q))
+        N = U.rename_fa(N, {q: ("" if q == old else q) for q in N.Q})
+    return N
 
 
 def drive(task):
